@@ -8,6 +8,8 @@
       and the eager loader assigns the same maps               — `eager_nsmaps_eq_lazy`, `eager_nsmaps_eq_inScope`
       (finding C06-F4, the eager loop without a pop in its 'end' branch, is fixed by commit 6d25df9)
     * lazy iteration yields every element exactly once             — `iter_lazy_order`, `iter_lazy_perm`
+      (full statement "in the order of the loaded tree" is false for the code as it is: below the lazy depth
+       the order is reversed post-order, witness `wIt`, finding C06-F11; `iter_lazy_order` is the exact law)
     * the chunk selectors yield exactly the elements of the lazy depth in document order with the right
       ancestors                                                    — `iter_depth_spec`, `iterfind_spec`
     * lazy validation = eager validation as a multiset, with an exact order law, when every chunk is
